@@ -1,0 +1,17 @@
+//go:build !verif
+
+package proxy
+
+import (
+	"github.com/datastax/cql-proxy/proxycore"
+	"github.com/datastax/go-cassandra-native-protocol/message"
+)
+
+// Hooks of the verification harness; they do nothing unless built with -tags verif.
+func verifTrace(kind string, r *request, obj interface{}, a, b, c int64, s string) {}
+
+func verifPlan(r *request) string { return "" }
+
+func verifHostKey(h *proxycore.Host) string { return "" }
+
+func verifErrorFields(m message.Error) string { return "" }
